@@ -32,22 +32,6 @@ func mapValue(v AV, f func(AV, int) AV, depth int) AV {
 	return f(c, depth)
 }
 
-func stringifyValue(v AV, _ int) AV {
-	switch v.K {
-	case KDouble:
-		return AV{K: KStr, S: "d" + hx(v.I)}
-	case KBytes:
-		return AV{K: KStr, S: "y" + hb(v.Y)}
-	case KMap:
-		// injective: two different maps must not become the same string (the detriggered input would
-		// then make the sorting mode merge resources that the original kept apart)
-		var sb strings.Builder
-		rAttrs(&sb, v.KV, false)
-		return AV{K: KStr, S: "m" + sb.String()}
-	}
-	return v
-}
-
 func forAttrsM(t Metrics, f func(AV, int) AV) Metrics {
 	c := cloneMetrics(t)
 	for _, s := range attrSitesM(&c) {
@@ -91,37 +75,18 @@ func in(s string, set ...string) bool {
 
 var mclasses = []mclass{
 	{
-		name:  "summary-nrv",
-		setup: func(g *G) { g.flagSummary = true },
-		detrigger: func(t Metrics) Metrics {
-			return forPointsM(t, func(m *Met, p *Pt) {
-				if m.Type == MSummary {
-					p.Flags = 0
-				}
-			})
-		},
-		sig: func(c, f string, _ [4]verdict) string {
-			if f == "flags" {
-				return "summary-no-recorded-value"
-			}
-			return ""
-		},
-	},
-	{
 		name:  "valueless",
 		setup: func(g *G) { g.valueless = true },
 		detrigger: func(t Metrics) Metrics {
 			return forPointsM(t, func(m *Met, p *Pt) {
-				if (m.Type == MGauge || m.Type == MSum) && p.VT == 0 {
+				if (m.Type == MGauge || m.Type == MSum) && p.VT == 0 && p.Flags&1 == 0 {
 					p.VT, p.V = 1, 0
 				}
 			})
 		},
 		sig: func(c, f string, _ [4]verdict) string {
-			if strings.HasPrefix(c, "s") && f == "record-count" {
-				return "sorted-drops-valueless-number-point"
-			}
-			if strings.HasPrefix(c, "u") && f == "flags" {
+			// both writers store the point as PointValueTypeNone, which reads back as NoRecordedValue
+			if f == "flags" {
 				return "valueless-number-point-becomes-nrv"
 			}
 			return ""
@@ -140,23 +105,6 @@ var mclasses = []mclass{
 		sig: func(c, f string, _ [4]verdict) string {
 			if f == "error-w" {
 				return "histogram-no-buckets-rejected"
-			}
-			return ""
-		},
-	},
-	{
-		name:  "nrv-exemplars",
-		setup: func(g *G) { g.nrvExemplars = true },
-		detrigger: func(t Metrics) Metrics {
-			return forPointsM(t, func(m *Met, p *Pt) {
-				if p.Flags&1 != 0 {
-					p.Ex = nil
-				}
-			})
-		},
-		sig: func(c, f string, _ [4]verdict) string {
-			if f == "exemplars" {
-				return "nrv-point-exemplars-dropped"
 			}
 			return ""
 		},
@@ -197,26 +145,6 @@ type tclass struct {
 
 var tclasses = []tclass{
 	{
-		name:  "cmpval-kinds",
-		setup: func(g *G) { g.resAllKinds = true },
-		detrigger: func(t Traces) Traces {
-			c := cloneTraces(t)
-			for i := range c.RSs {
-				c.RSs[i].Attrs = mapValues(c.RSs[i].Attrs, stringifyValue, 0)
-				for j := range c.RSs[i].Scopes {
-					c.RSs[i].Scopes[j].Attrs = mapValues(c.RSs[i].Scopes[j].Attrs, stringifyValue, 0)
-				}
-			}
-			return c
-		},
-		sig: func(m, f string, _ [2]verdict) string {
-			if m == "s" && f == "error-panic-w" {
-				return "sorted-cmpval-panic"
-			}
-			return ""
-		},
-	},
-	{
 		name:  "dropped-counts",
 		setup: func(g *G) { g.droppedCounts = true },
 		detrigger: func(t Traces) Traces {
@@ -234,26 +162,6 @@ var tclasses = []tclass{
 		sig: func(m, f string, _ [2]verdict) string {
 			if in(f, "dropped_events_count", "dropped_links_count") {
 				return "span-dropped-events-links-count-lost"
-			}
-			return ""
-		},
-	},
-	{
-		name:  "merge-dropped",
-		setup: func(g *G) { g.mergeDropped = true },
-		detrigger: func(t Traces) Traces {
-			c := cloneTraces(t)
-			for i := range c.RSs {
-				c.RSs[i].Dropped = 0
-				for j := range c.RSs[i].Scopes {
-					c.RSs[i].Scopes[j].Dropped = 0
-				}
-			}
-			return c
-		},
-		sig: func(m, f string, _ [2]verdict) string {
-			if m == "s" && in(f, "resource.dropped", "scope.dropped") {
-				return "sorted-merge-ignores-dropped-count"
 			}
 			return ""
 		},
